@@ -460,6 +460,21 @@ func (r *Runner) GenBatch() Batch {
 		for _, id := range r.pickIDs(n, 0.8) {
 			b = append(b, r.gen(id, true, 0.5))
 		}
+		if r.Cfg.RepeatUpd && !r.Cfg.hasGraph() && len(b) > 0 && r.R.Intn(2) == 0 {
+			// the same point named twice in one update: applied one after the other
+			// (not with a graph index: its insert workers take the two changes of one
+			// node in either order, the outcome is not defined)
+			id := b[r.R.Intn(len(b))].ID
+			if r.R.Intn(2) == 0 {
+				b = append(b, r.gen(id, true, 0.5))
+			} else {
+				// remove every indexed field, then set them again, in one request
+				r.G.ForceDelete = true
+				b = append(b, r.gen(id, true, 0.5))
+				r.G.ForceDelete = false
+				b = append(b, r.gen(id, true, 1.0))
+			}
+		}
 		return Batch{Kind: "update", Pts: b}
 	default:
 		return Batch{Kind: "delete", IDs: r.pickIDs(n, 0.7)}
@@ -483,4 +498,13 @@ func (r *Runner) RandomBatch() string {
 	b := r.GenBatch()
 	r.Apply(b)
 	return b.Kind
+}
+
+func (c Config) hasGraph() bool {
+	for _, p := range c.Props {
+		if p.Type == models.IndexTypeVectorVamana {
+			return true
+		}
+	}
+	return false
 }
